@@ -23,15 +23,19 @@ structure Params where
   startWatchesExit : Bool
   /-- `Start`'s select has a timer arm -/
   startHasTimeout : Bool
+  /-- whatever way `Start` returns, somebody keeps receiving from `linesCh` (the drain goroutine is started from a
+  `defer` registered before the handshake `select`), so the scanner's `linesCh <- line` never blocks for ever -/
+  linesAlwaysDrained : Bool
   deriving DecidableEq, Repr
 
 def Params.Good (P : Params) : Prop :=
   P.waitCancelsCtx = true ∧ P.waitSetsExited = true ∧ P.drainsAfterScannerError = true ∧
-  P.startWatchesExit = true ∧ P.startHasTimeout = true
+  P.startWatchesExit = true ∧ P.startHasTimeout = true ∧ P.linesAlwaysDrained = true
 
 instance (P : Params) : Decidable P.Good := by unfold Params.Good; exact inferInstance
 
-inductive OutPc | scanning | draining | stuck | done
+/-- `blocked`: the scanner sits in `linesCh <- line` with nobody receiving (it has not released the pipes' wait group) -/
+inductive OutPc | scanning | draining | stuck | blocked | done
   deriving DecidableEq, Repr
 
 inductive WaitPc | waitPipes | waitProc | marking | cancelling | done
@@ -52,6 +56,8 @@ inductive Event
   | procDies
   /-- the scanner stops on an over-long line while the process may still be alive -/
   | scannerError
+  /-- the plugin writes a further line to its real stdout after `Start` has returned -/
+  | extraLine
   | stderrEOF
   | stdoutEOF
   | pipesDone
@@ -64,6 +70,8 @@ def step (P : Params) (s : State) : Event → Option State
   | .procDies => if s.procAlive then some { s with procAlive := false } else none
   | .scannerError =>
     if s.stdout = .scanning then some { s with stdout := if P.drainsAfterScannerError then .draining else .stuck } else none
+  | .extraLine =>
+    if s.procAlive && s.stdout = .scanning then some { s with stdout := if P.linesAlwaysDrained then .scanning else .blocked } else none
   | .stderrEOF => if !s.procAlive && s.stderrOpen then some { s with stderrOpen := false } else none
   | .stdoutEOF =>
     if !s.procAlive && (s.stdout = .scanning || s.stdout = .draining) then some { s with stdout := .done } else none
